@@ -498,6 +498,14 @@ func (c *corrCtx) runParse(bases []baseCase, n int) {
 		c.checkParse("asa", "router", d)
 		c.checkParse("asa", "router.raw", d)
 	}
+	for _, w := range []string{" ", "   ", "\t", " \t ", "\r", "  \r"} {
+		for _, d := range []string{"interface E0\n@\n nameif inside\n", "@\ninterface E0\n nameif inside\n@\n shutdown\n@", "foo\n@\n x\n",
+			"access-list A extended permit ip any4 any4@\n@\naccess-group A global@\n", "interface E0@\n  nameif a@\n@\n shutdown\n"} {
+			c.checkParse("asa", "router", strings.ReplaceAll(d, "@", w))
+			c.checkParse("asa", "router.raw", strings.ReplaceAll(d, "@", w))
+			c.checkParse("ios", "router", strings.ReplaceAll(d, "@", w))
+		}
+	}
 	for _, d := range []string{"ip access-list extended A\n 10 permit tcp any host 10.1.1.1 eq 80\n 20 deny ip any any log\n permit object-group\n",
 		"ip access-list extended A\n permit ip host\n", "interface E0\n ip address 10.1.1.1 255.255.255.0\n  sub sub\n shutdown\n"} {
 		c.checkParse("ios", "router", d)
